@@ -223,7 +223,8 @@ RunLogClauses(rl) ==
        <<"C15.cancelled-or-failed-line-is-closed",
          LET Open(x) == (x.cancelled \/ x.failed) /\ ~(x.end # -1 /\ ~x.cancellable /\ ~x.forcible)
              prl == IF "rl" \in DOMAIN p THEN p.rl ELSE <<>>
-         IN ranTick => \A i \in DOMAIN rl : Open(rl[i]) => ~\E j \in DOMAIN prl : prl[j].id = rl[i].id /\ Open(prl[j])>>,
+         IN (ranTick /\ stale = {}) =>        \* (not judged once an orphaned interrupt is present: reported at its root cause)
+                \A i \in DOMAIN rl : Open(rl[i]) => ~\E j \in DOMAIN prl : prl[j].id = rl[i].id /\ Open(prl[j])>>,
        <<"C15.closed-item-offers-nothing",
          \A i \in DOMAIN rl : rl[i].state \in {"completed", "failed", "cancelled"} => ~rl[i].cancellable /\ ~rl[i].forcible>> >>
 
